@@ -271,6 +271,11 @@ def splice_fn(a, item, uc, group_props, canary=False, drop_hints=()):
     params = sig[:pc + 1]
     rest = sig[pc + 1:].strip()
     ret = None
+    where = None
+    m_where = re.search(r"(^|\s)where\s", rest)
+    if m_where:
+        where = rest[m_where.start():].strip()
+        rest = rest[:m_where.start()].strip()
     if rest.startswith("->"):
         ret = rest[2:].strip()
     unit_safety = None
@@ -304,6 +309,8 @@ def splice_fn(a, item, uc, group_props, canary=False, drop_hints=()):
         a.add("%s -> (%s: %s)" % (params, rn, ret))
     else:
         a.add(params)
+    if where:
+        a.add("    " + where.rstrip().rstrip(",") + ",")
     if uc and uc.requires:
         a.add("    requires")
         for c in uc.requires:
